@@ -70,6 +70,7 @@ type Task struct {
 	rec       *ReqRecord
 	lastSite  int
 	segTicks  int64
+	mapCtr    map[int]int // per-request counters of map-order decisions (task-local, so a task's orders do not depend on its neighbours)
 }
 
 const DefaultFuel = 2_000_000
@@ -192,8 +193,12 @@ func (w *World) mapOrder(site int, sorted []string) []string {
 		return sorted
 	}
 	w.mapDecided++
-	c := w.mapCounters[site]
-	w.mapCounters[site] = c + 1
+	ctr := w.mapCounters
+	if t := w.cur; t != nil && t.mapCtr != nil {
+		ctr = t.mapCtr
+	}
+	c := ctr[site]
+	ctr[site] = c + 1
 	switch w.mapMode.Mode {
 	case "reverse":
 		for i, j := 0, n-1; i < j; i, j = i+1, j-1 {
